@@ -195,3 +195,93 @@ Definition c07_case (h : list op) (zs : list Q) (observed : list obs) (final : o
          | None => true
          | Some b => opt_eqb ob_eqb (op_request (last h Reopen)) (Some b)
          end ].
+
+(* ---------- a catalog: one state per patch, in patch order ---------- *)
+(* catalog-level operations: the per-patch operations above applied to every patch
+   (Catalog.build_trees, the measurements, Catalog(cache)), and the public per-patch call
+   BinnedTrees.build(catalog[p], Binning(edges, closed) | None, force=...) on ONE patch
+   (Binning(...) raises for invalid edges before a file is touched) *)
+Inductive cop : Type :=
+| All (o : op)
+| One (p : nat) (b : obinning) (force : bool).
+Definition cst : Type := list st.
+
+Fixpoint upd_nth {A} (p : nat) (f : A -> A) (l : list A) {struct l} : list A :=
+  match l, p with
+  | [], _ => []
+  | x :: r, O => f x :: r
+  | x :: r, S p' => x :: upd_nth p' f r
+  end.
+
+Definition cstep_with (eq : obinning -> obinning -> bool) (cs : cst) (o : cop) : cst :=
+  match o with
+  | All o => map (fun s => step_with eq s o) cs
+  | One p b f => upd_nth p (fun s => step_with eq s (Build b f)) cs
+  end.
+Definition crun_with (eq : obinning -> obinning -> bool) (h : list cop) (cs : cst) : cst :=
+  fold_left (cstep_with eq) h cs.
+Definition cstep : cst -> cop -> cst := cstep_with binning_equal.
+Definition crun : list cop -> cst -> cst := crun_with binning_equal.
+Definition c_fresh (n : nat) : cst := repeat s_fresh n.
+
+(* what patch p sees of a catalog-level operation *)
+Definition proj (p : nat) (o : cop) : op :=
+  match o with
+  | All o => o
+  | One q b f => if (q =? p)%nat then Build b f else Reopen
+  end.
+
+(* a broken catalog-level build: unless forced, look only at the FIRST patch's cached binning and
+   return early when it equals the request (the other patches are never examined) *)
+Definition first_matches (cs : cst) (b : obinning) : bool :=
+  match cs with
+  | s :: _ => match bfile s with Some stored => binning_equal stored b | None => false end
+  | [] => false
+  end.
+Definition cstep_first_patch_shortcut (cs : cst) (o : cop) : cst :=
+  match o with
+  | All (Build b false) => if valid_ob b && first_matches cs b then cs else cstep cs o
+  | All (Measure c r) =>
+      if valid_edges (c_edges c) && first_matches cs (role_binning c r) then cs else cstep cs o
+  | _ => cstep cs o
+  end.
+
+(* ---------- catalog-level correspondence checker ---------- *)
+Fixpoint cstates (h : list cop) (cs : cst) : list cst :=
+  match h with
+  | [] => []
+  | o :: r => let cs' := cstep cs o in cs' :: cstates r cs'
+  end.
+
+Definition row_agrees (zss : list (list Q)) (cs : cst) (row : list obs) : bool :=
+  (length zss =? length cs)%nat &&
+  forallb2 (fun sz o => state_agrees (snd sz) (fst sz) o) (combine cs zss) row.
+
+Definition final_ok (b : obinning) (zs : list Q) (o : obs) : bool :=
+  match o with
+  | (Some fb, Some tc) => binning_equal fb b && tc_eqb tc (tree_counts b zs)
+  | _ => false
+  end.
+
+Definition cop_request (o : cop) : option obinning :=
+  match o with All o => op_request o | One _ _ _ => None end.
+
+(* ch: the operations one catalog went through, starting from a freshly created cache;
+   zss: the redshifts stored in each patch (patch order); observed: for every operation, every
+   patch directory afterwards; final: Some b when the last operation is the catalog-wide build of
+   the final measurement, asking for b *)
+Definition c07_ccase (ch : list cop) (zss : list (list Q)) (observed : list (list obs))
+           (final : option obinning) : nat :=
+  code [ (* model = implementation after every operation, in every patch (both files) *)
+         forallb2 (row_agrees zss) (cstates ch (c_fresh (length zss))) observed;
+         (* the statement on the implementation's output: after the final build EVERY patch holds
+            the trees a fresh cache would hold for the requested binning, labelled as such *)
+         match final with
+         | None => true
+         | Some b => forallb2 (final_ok b) zss (last observed [])
+         end;
+         (* harness sanity: the last operation asks (validly, catalog-wide) for `final` *)
+         match final with
+         | None => true
+         | Some b => opt_eqb ob_eqb (cop_request (last ch (All Reopen))) (Some b)
+         end ].
